@@ -50,6 +50,31 @@ CHECKS = {
         "interpreter uses an independent literal table.",
    note=COMMON + BRIDGE + HIST + "Axis keys X/Y/Z of get_parameter are excluded (position is tracked through C01). Rejected-call exits inside "
         "the C05 known-finding regions are carved out with the same regions."),
+ "C04": dict(category="proof",
+   text="Transform.apply is proved to compute A·resolve(p)+b from the matrix; _chain_matrix is proved to left-compose T(p)·K·T(-p) about the "
+        "pivot; translate/scale(1,2,3 args)/reflect/mirror/rotate are proved to pass the documented elementary matrix K (rotate: the right "
+        "rotation vector, angle·π/180 about the chosen axis, embedded in the upper-left 3x3); and for an ARBITRARY invertible affine map "
+        "(A, b) move/rapid/probe are proved to emit, per axis word, the image of the target (absolute) or the linear image of the displacement "
+        "(relative), to mention every axis whose machine coordinate changes, and to keep the machine at transform(tracked position).",
+   note=COMMON + BRIDGE + "A-numpy (@, eye, diag, outer, slicing, copy have their mathematical meaning over the reals), linalg.inv / linalg.norm / scipy "
+        "Rotation specified by their defining equations (assumed). The end-to-end relation is stated for fully known tracked positions "
+        "(after homing/probing under a non axis-aligned transform the image of an unknown coordinate is undefined). A-real: in floats an "
+        "axis may additionally be emitted because of rounding noise, never omitted."),
+ "C13": dict(category="proof",
+   text="save_state/restore_state (stack and named forms, empty-stack and missing-name cases), delete_state: exact effect on the abstract view "
+        "(current, stack, named map) incl. frames, with heap SEPARATION (current, every stack entry and every named entry are distinct objects "
+        "sharing no array) as an invariant — which is what makes a named state an immutable snapshot; reverse(apply(p)) == p from "
+        "_inverse·_matrix == I; rotations and scalings are proved to fix the pivot (T(p)·K·T(-p)·p == p for K without translation part).",
+   note=COMMON + "A-numpy, copy.deepcopy (fresh objects, equal contents, nothing shared), linalg.inv assumed. Names are opaque keys (two representative "
+        "names). Stack = arbitrary prefix + visible top (the operations only touch the top). Lemma Mat4.mulVec_assoc is checked as a polynomial identity by z3."),
+ "C20": dict(category="proof",
+   text="Loop contract for the hook loop of _prepare_move with an arbitrary number >= 1 of arbitrary hooks: each hook call receives "
+        "(resolve(position), true absolute target, params, state) in either distance mode (move and move_absolute); the parameters returned "
+        "by the last hook are proved to be exactly the non-axis words emitted and the values remembered; rapid moves call no hook. The bundled "
+        "extrusion hook is proved to set E = (nozzle x layer / (π(d/2)²)) x XY length, plus the remembered E in absolute extrusion mode.",
+   note=COMMON + BRIDGE + "Python's for-statement provides 'once per registered hook, in order' (the loop contract checks the body is the single call). "
+        "Hooks are assumed not to mutate the builder. math.hypot assumed (defining equation). Identity transform (with a transform the code passes the "
+        "transformed target with the untransformed origin: observation, outside C20's quantifier)."),
 }
 
 NOT_APPLICABLE = {
@@ -58,15 +83,15 @@ NOT_APPLICABLE = {
  "C10": "checks for this property are still being built in this round (will be claimed once its units discharge); not a statement about applicability",
  "C11": "checks for this property are still being built in this round (will be claimed once its units discharge); not a statement about applicability",
  "C12": "checks for this property are still being built in this round (will be claimed once its units discharge); not a statement about applicability",
- "C13": "checks for this property are still being built in this round (will be claimed once its units discharge); not a statement about applicability",
+ 
  "C14": "checks for this property are still being built in this round (will be claimed once its units discharge); not a statement about applicability",
  "C15": "checks for this property are still being built in this round (will be claimed once its units discharge); not a statement about applicability",
  "C16": "checks for this property are still being built in this round (will be claimed once its units discharge); not a statement about applicability",
  "C17": "checks for this property are still being built in this round (will be claimed once its units discharge); not a statement about applicability",
  "C18": "checks for this property are still being built in this round (will be claimed once its units discharge); not a statement about applicability",
  "C19": "checks for this property are still being built in this round (will be claimed once its units discharge); not a statement about applicability",
- "C20": "checks for this property are still being built in this round (will be claimed once its units discharge); not a statement about applicability",
- "C04": "checks for this property are still being built in this round (will be claimed once its units discharge); not a statement about applicability"
+ 
+ 
 }
 
 NOTES = ("All checks are generated from /repo's working tree on every run (no cache). exit 0 held, 1 violation, 2 undecided, 3 checker defect. "
